@@ -122,6 +122,7 @@ def plan(tier, seed):
     d["bound"] = min(b for _, b in runs)
     d["exhaustive"] = not capped
     d["dimensions"] = {k: len(v) for k, v in dims.items()}
+    d["dimensions"]["s_t"] = sum(len(p) for p, _ in runs)   # the runs enumerate disjoint pair lists
     d["model_target_groups"] = len(items)
     d["enumeration_runs"] = per_run
     return items, d
